@@ -3,6 +3,7 @@ use crate::common::*;
 use crate::PropDef;
 
 pub mod c01;
+pub mod replbin;
 pub mod c02;
 pub mod c03;
 pub mod c04;
